@@ -188,8 +188,8 @@ def run(ctx):
         if not b.locals[1]['ty'].startswith('&'):
             continue
         mask_fns.append(f)
-    if len(mask_fns) < 2:
-        ctx.anchor_missing(RULE, 'mask builders of the layout (self, min, max) -> u64', PROPS, len(mask_fns), 2)
+    if not mask_fns:
+        ctx.anchor_missing(RULE, 'mask builders of the layout (self, min, max) -> u64', PROPS, 0, 1)
         return
     layout_ty = mask_fns[0].self_adt
     # ---- which field holds the domain maximum: the field the layout constructor fills from the argument that the tree
@@ -231,8 +231,12 @@ def run(ctx):
         for t, args, c in leaf_fill_calls(prog, mf, env):
             for a in args:
                 positions.append((mf, t, a))
-    if len(positions) < 4:
-        ctx.anchor_missing(RULE, 'endpoint positions passed to the bit-range fill by the mask builders', PROPS, len(positions), 4)
+    for mf in mask_fns:
+        if not any(p[0] is mf for p in positions):
+            # each mask builder is an anchor of its own: one that no longer shows its endpoint positions must not pass
+            # as a consolidation of the other
+            ctx.anchor_missing(RULE, 'endpoint positions passed to the bit-range fill by %s' % mf.name, PROPS, 0, 1)
+    if not positions:
         return
     # ---- L: length of the list vector in every constructor of the tree
     n_ctor = 0
